@@ -111,6 +111,8 @@ def main():
     prop = a.prop
     seed = int(os.environ.get("VERIF_SEED", "0"))
     tier = a.tier if a.tier in ("quick", "thorough") else "quick"
+    if tier == "thorough":
+        os.environ["PYVC_REPLAY_SELFTEST"] = "1"      # thorough tier: every native scenario of the property is also RUN on the tree (bounded)
     if a.replay:
         r = subprocess.run([VENV_PY, "-c", "import runpy,sys; a=sys.argv; sys.argv=['run.py', a[1]]; runpy.run_path(a[2], run_name='__main__')",
                             a.replay, str(HERE / "replay" / "run.py")], cwd=repo_root(),
@@ -192,19 +194,30 @@ def main():
             if re.search(pat, rec.get("unit", "") + " " + rec.get("name", "")):
                 rec["bounded"] = why
                 break
+    scenario_runs, scenario_violations = [], []
     if os.environ.get("PYVC_REPLAY_SELFTEST"):
+        # every distinct native scenario attached to an obligation, built from an EMPTY witness, is run on the tree under test. On the
+        # unchanged tree each must hold (tools/replay_selftest.py). In the thorough tier a scenario that FAILS on the tree is a failing
+        # input of the real code: reported as a violation (bounded dynamic complement of the proofs; listed under coverage.bounded).
+        known0, _ = load_known()
         seen_code = set()
         for i, rec in enumerate(recs):
             sc = rec.pop("selftest_scenario", None)
             if sc is None or sc["code"] in seen_code:
                 continue
             seen_code.add(sc["code"])
-            path, outcome = replay(prop, {"name": "selftest." + rec["name"], "function": rec.get("function"), "scenario": sc, "witness": {}}, i)
-            print(f"SELFTEST property={prop} obligation={rec['name']} status={outcome.get('status')} detail={str(outcome.get('detail') or outcome.get('stderr'))[:240]}")
-            try:
-                os.unlink(path)
-            except OSError:
-                pass
+            path, outcome = replay(prop, {"name": "scenario." + rec["name"], "function": rec.get("function"), "scenario": sc, "witness": {}}, i)
+            st = outcome.get("status")
+            print(f"SELFTEST property={prop} obligation={rec['name']} status={st} detail={str(outcome.get('detail') or outcome.get('stderr'))[:240]}")
+            scenario_runs.append({"obligation": rec["name"], "status": st})
+            is_known = match_known(known0, prop, dict(rec, verdict="refuted")) is not None or rec["verdict"] == "refuted"
+            if st == "violated" and tier == "thorough" and not is_known:
+                scenario_violations.append((rec, path, outcome))
+            else:
+                try:
+                    os.unlink(path)
+                except OSError:
+                    pass
     refuted = [r for r in recs if r["verdict"] == "refuted"]
     undecided = [r for r in recs if r["verdict"] == "undecided"]
     discharged = [r for r in recs if r["verdict"] == "discharged"]
@@ -292,6 +305,10 @@ def main():
         exit_code = 3
     if crosscheck_failed and exit_code == 0:
         exit_code = 3
+    for rec, path, outcome in scenario_violations:
+        print(f"VIOLATION property={prop} replay={path}")
+        print(f"  native scenario of obligation {rec['name']} FAILS on the tree under test (thorough tier, bounded): {str(outcome.get('detail'))[:300]}")
+        exit_code = 1
     if isinstance(extra, dict) and extra.get("violations"):
         for v in extra["violations"]:
             print(f"VIOLATION property={prop} replay={v['replay']}" + ("" if v.get("confirmed", True) else " no-failing-input-found"))
@@ -354,12 +371,15 @@ def main():
                             + (getattr(mod, "EXPLANATION", "") or "")),
             "known_findings_matched": [k["what"] for k, _ in known_hits],
             "bounded": (extra.get("bounded", []) if isinstance(extra, dict) else []) +
-                       ([{"kind": "native stand-in scenarios run for undecided obligations (bounded; a passing scenario proves nothing)", "runs": standins}] if standins else []),
+                       ([{"kind": "native stand-in scenarios run for undecided obligations (bounded; a passing scenario proves nothing)", "runs": standins}] if standins else []) +
+                       ([{"kind": "native scenarios of the obligations run on the tree with default inputs (bounded; a passing scenario proves nothing)", "bound": "one run per distinct scenario",
+                          "runs": len(scenario_runs), "held": sum(1 for x in scenario_runs if x["status"] == "held"),
+                          "not_held": [x for x in scenario_runs if x["status"] != "held"][:20]}] if scenario_runs else []),
             "repo": repo_root(),
         },
         "assumptions": sorted(assumptions | set(getattr(mod, "ASSUMPTIONS", []))),
         "wall_s": round(wall, 2),
-        "violations": len(violations) + sum(1 for x in standins if x["status"] == "violated"),
+        "violations": len(violations) + sum(1 for x in standins if x["status"] == "violated") + len(scenario_violations),
     }
     if not a.no_evidence and not a.unit:
         (HERE / "evidence").mkdir(exist_ok=True)
